@@ -6,5 +6,7 @@ Init == /\ c \in {x \in Cases : Relevant(x)} /\ done = FALSE
 Next == ~done /\ done' = TRUE /\ UNCHANGED c
 Spec == Init /\ [][Next]_<<c, done>>
 \* an accepted INDEFINITE iterator never caches and loops once
+\* the verdict never depends on whether the sizes fit the terminal
+FitsIrrelevant == Verdict(c) = Verdict([c EXCEPT !.fits = "yes"])
 IndefiniteSane == (Verdict(c) = "ok" /\ c.frames = 0) => (Loop(c) = 1 /\ ~Cached(c))
 =============================================================================
